@@ -25,6 +25,10 @@ type LexOpts struct {
 	KeepRaw       bool // retain the slices returned by Next(nil) for the aliasing check
 	// ComputedFirst: the attachment callback asks for ComputedCRC before ParsedCRC (both orders are legal)
 	ComputedFirst bool
+	// ExtraOpts: NewLexer is handed a second, zero-valued options struct after the real one. NewLexer takes
+	// its options as a variadic parameter and uses the first struct only, so this must change nothing.
+	// Lex also does it whenever ComputedFirst is set (the callers alternate that flag).
+	ExtraOpts bool
 }
 
 // Out is one record delivered by the lexer (or its attachment callback).
@@ -148,7 +152,13 @@ func canonToken(tt mcap.TokenType, rec []byte) (string, error) {
 func Lex(r io.Reader, o LexOpts) *LexResult {
 	res := &LexResult{}
 	res.Panic = core.Safe(func() {
-		lexer, err := mcap.NewLexer(r, o.lexerOptions(res))
+		var lexer *mcap.Lexer
+		var err error
+		if o.ExtraOpts || o.ComputedFirst {
+			lexer, err = mcap.NewLexer(r, o.lexerOptions(res), &mcap.LexerOptions{})
+		} else {
+			lexer, err = mcap.NewLexer(r, o.lexerOptions(res))
+		}
 		if err != nil {
 			res.Err = err
 			return
